@@ -143,5 +143,14 @@ CLAIMED.update({
     },
 })
 
+CLAIMED.update({
+    "C06": {
+        "text": "PARTIAL. Coq theorems (closed under the global context) for the facts both directions of the property rest on, for all inputs: the two tools parse with the same precedence tiers, operator classes and associativity and dispatch on the same statement keywords (C06_same_expression_grammar, C06_same_statement_keywords: equalities over the tables regenerated from expression.rs / expression_analyzer.rs / statement.rs / statement_analyzer.rs on every run); the checker accepts a numeric jump target exactly when the interpreter's jump succeeds on the same store (C06_jump_targets), and analysis never changes the store (C06_analysis_keeps_store, a frame walk over the whole analyzer fork); the checker accepts an assignment exactly when the value's static kind is the kind of the target's name, the interpreter stores exactly when the dynamic kind is, comparison results are numbers in both (C06_checker_assignment, C06_interpreter_assignment, C06_comparisons_are_numbers). The two full statements (no analysis error => no syntax / type / undefined-jump failure in any run; error on a straight-line line => that line fails fresh) are decided on every run by execution: analyzer verdict vs forced runs along both branches and straight-line lines executed fresh on the implementation, the model tied to both tools by the analyzer and run correspondences.",
+        "design_ref": "DESIGN.md 6 C06",
+        "note": NOTE + "PARTIAL: C06_sound and C06_complete are validated (oracle + correspondences), not proved: they need the AST-level simulation between the two token walkers.",
+        "technique": "Coq proof of the supporting facts (table equalities, jump-target agreement, kind discipline, analyzer frame) + analyzer-vs-forced-runs differential oracle + correspondences",
+    },
+})
+
 _TODO = "check under construction in this session; not claimed until its theorems and correspondence are in place"
-NOT_CLAIMED = {p: _TODO for p in ["C03", "C06"]}
+NOT_CLAIMED = {p: _TODO for p in ["C03"]}
